@@ -195,6 +195,7 @@ CHECKS = {
             {"name": "TestC08Expr", "checks": [4000, 150000], "shards": [2, 16], "floor": 0.8},
             {"name": "TestC08Triples", "enum": True},
             {"name": "TestC08Spacing", "enum": True},
+            {"name": "TestC08RawSpacing", "enum": True},
             K,
         ],
         "assumptions": ["the reference model (harness/rm.go) is the executable reading of the operator table in C08",
